@@ -63,8 +63,9 @@ PROP = Prop(
         'the frame does not see writes through aliases of open/shutil or through imported helpers (edit_rules.py imports none of the repository modules)',
     ],
     explanation='Deductive (all grammars, all parameters, regex engine abstracted): edit_length, edit_terminal_set and check_regex each return exactly the concatenation, in order, '
-                'of the (rebuilt) lines that pass the declarative filter -- labels A/D/O/K/X count their number, Y counts 4, a total of 0 (Markov) is kept, max_length 0 is unbounded; '
+                'of the (rebuilt) lines that pass the declarative filter -- labels A/D/O/K count their number, Y counts 4, a context-sensitive X counts between the two given context lengths, a structure that generates nothing (Markov) is kept, '
+                'otherwise the shortest guess must reach min_length and the longest must not exceed max_length (0 = unbounded); '
                 'every label letter in the terminal set; every regular expression matches the structure. Frame (AST, all paths): the only statements of edit_rules.py that change the file system are open(grammar_file, "w") in edit_rules(), with grammar_file = '
                 '<rules_dir>/<rule>/Grammar/grammar.txt, and shutil.copytree in _create_copy (source -> copy); so no other file of a ruleset is touched. '
-                'Bounded: filter semantics on the real CLI. Known finding F12 (context-sensitive segments counted as one character).',
+                'Bounded: filter semantics on the real CLI. Context-sensitive segments are measured with the real lengths of the ruleset (defect F12, repaired).',
 )
